@@ -34,6 +34,7 @@ import numpy
 from ..extract import HEADER, Src, lean_list, lean_str
 from . import c05_frames as fr
 from . import c05_layout as lay
+from . import c05_record as rec
 from . import c05_rowclass as rc
 
 PINNED = [["BOOLEAN", "bool"], ["BLOB", "bytes"], ["DATE", "date"], ["TIMESTAMP", "datetime"], ["TIME", "time"],
@@ -623,3 +624,7 @@ def generate(o):
     ff = o.item("row.create_class.fields", lambda: lay.class_fields_from(rowsrc.tree), lay.PIN_FIELDS)
     size = o.item("row.as_bytes.size", lambda: lay.size_facts(rowsrc.tree), lay.PIN_SIZE)
     o.files["Layout.lean"] = lay.lean_text(HEADER, rel, it, ff, size)
+
+    # ---- what validate / append do with the caller's record object beyond reading it
+    use = o.item("record.use", lambda: rec.facts(_method(_cls(schema.tree, "RelationSchema"), "validate"), _method(frame_cls(), "append")), rec.PIN)
+    o.files["RecordUse.lean"] = rec.lean_text(HEADER, use, lean_list, lean_str)
